@@ -109,7 +109,8 @@ def _nodes(db, chk, m):
     nl = r.env["self"].attrs.get("node_list")
     z = T.find(to_term(nl), lambda s: s[0] == "zip")
     want = [nd.col(c) for c in ("idx", "ev_idx", "ts", "is_start", "is_blocking_call")]
-    okz = len(z) >= 1 and list(z[0][1]) == want and cpn[:5] == ["idx", "ev_idx", "ts", "is_start", "is_blocking"]
+    _untl = lambda x: x[1] if isinstance(x, tuple) and len(x) == 3 and x[0] == "tolist" else x          # (zip over columns = zip over their tolist()s)
+    okz = len(z) >= 1 and [_untl(x) for x in z[0][1]] == want and cpn[:5] == ["idx", "ev_idx", "ts", "is_start", "is_blocking"]
     chk.ob(rule, "CPNode(*args) receives (idx, ev_idx, ts, is_start, is_blocking) in the dataclass field order", okz, where, found={"fields": cpn, "zip": [T.show(x)[:50] for x in (z[0][1] if z else [])]},
            accepted=["idx", "ev_idx", "ts", "is_start", "is_blocking"], why="positional construction: a swapped column puts a timestamp into ev_idx")
     sm, em = to_term(r.env["self"].attrs.get("event_to_start_node_map")), to_term(r.env["self"].attrs.get("event_to_end_node_map"))
